@@ -31,6 +31,9 @@ def judge(scn, adm, obs):
         if scn["wopt"] == "default" or model_written == {False}:
             out.append((f"holder-bytes-changed:{scn['holder']}:{scn['wopt']}",
                         f"the bytes seen by the process that has the previous output {scn['holder']}'d changed during the relink"))
+    if obs.get("link_target_unchanged") is False and (scn["wopt"] == "default" or model_written == {False}):
+        out.append((f"symlink-target-rewritten:{scn['holder']}:{scn['wopt']}",
+                    "the output path is a symlink to the previous output; the relink rewrote the file the link points to instead of replacing the link"))
     if scn["holder"] == "exec" and scn["wopt"] == "inplace" and scn["faultAt"] == "none" and obs["exitZero"]:
         # explicit in-place update of a running executable must not succeed by modifying it
         if obs["outInode"] == "old":
